@@ -726,3 +726,219 @@ Section PerCand.
     lia.
   Qed.
 End PerCand.
+
+(* ---------------------------------------------------------------- states obtained candidate by candidate *)
+Definition mapd (F : C -> cscores -> cscores) (U : state) : state :=
+  map (fun cd : C * cscores => (fst cd, F (fst cd) (snd cd))) U.
+Definition canon (U : state) : list (C * Q) := map (fun cd : C * cscores => (fst cd, med_of (snd cd))) U.
+
+Lemma mapd_keys F U : map fst (mapd F U) = map fst U.
+Proof. unfold mapd. rewrite map_map. reflexivity. Qed.
+
+Lemma mapd_length F U : length (mapd F U) = length U.
+Proof. apply map_length. Qed.
+
+Lemma mapd_filter F (f : C -> bool) U :
+  filter (fun cd : C * cscores => f (fst cd)) (mapd F U) = mapd F (filter (fun cd : C * cscores => f (fst cd)) U).
+Proof.
+  induction U as [|[c d] U IH]; [reflexivity|]. cbn [mapd map filter fst snd]. fold (mapd F U).
+  destruct (f c); cbn [mapd map fst snd]; rewrite IH; reflexivity.
+Qed.
+
+Lemma mapd_mapd G F U : mapd G (mapd F U) = mapd (fun c d => G c (F c d)) U.
+Proof. unfold mapd. rewrite map_map. reflexivity. Qed.
+
+Lemma mapd_ext_in F G U : (forall c d, In (c, d) U -> F c d = G c d) -> mapd F U = mapd G U.
+Proof. intros H. unfold mapd. apply map_ext_in. intros [c d] Hin. cbn [fst snd]. rewrite (H c d Hin). reflexivity. Qed.
+
+Lemma mapd_In F U c d' : In (c, d') (mapd F U) -> exists d, In (c, d) U /\ d' = F c d.
+Proof.
+  intros H. unfold mapd in H. apply in_map_iff in H. destruct H as ([c0 d] & E & Hin). cbn [fst snd] in E. injection E as -> <-.
+  exists d. auto.
+Qed.
+
+Lemma mapd_Inv F U T' : NoDup (map fst U) -> (forall c d, In (c, d) U -> good (F c d) /\ cs_total (F c d) = T') -> Inv (mapd F U) T'.
+Proof.
+  intros Hnd H. split; [rewrite mapd_keys; exact Hnd|]. apply Forall_forall. intros [c d'] Hin.
+  destruct (mapd_In F U c d' Hin) as (d & HinU & ->). cbn [snd]. exact (H c d HinU).
+Qed.
+
+Lemma own_remove_mapd U r : own_remove U r = mapd (fun _ d => adj d (med_of d) (- r)) U.
+Proof. reflexivity. Qed.
+
+Lemma NOOP_mapd F F' (g : C -> cscores -> Q) U T' thr n r :
+  NoDup (map fst U) -> (0 < T')%Z -> (1 <= n < length U)%nat ->
+  (forall c d, In (c, d) U -> good (F c d) /\ cs_total (F c d) = T' /\ is_med (F c d) (g c d) /\ (g c d == thr)%Q /\
+                              adj (F c d) (g c d) (- (1)) = F' c d) ->
+  MJ (mapd F' U) n r -> MJ (mapd F U) n r.
+Proof.
+  intros Hnd HT Hn Hall H.
+  assert (Hmed : forall c d, In (c, d) U -> (med_of (F c d) == g c d)%Q).
+  { intros c d Hin. destruct (Hall c d Hin) as (A1 & A2 & A3 & _). exact (med_of_char _ T' _ A1 A2 HT A3). }
+  apply (NOOP (mapd F U) T' thr n r).
+  - apply mapd_Inv; [exact Hnd|]. intros c d Hin. destruct (Hall c d Hin) as (A1 & A2 & _). auto.
+  - exact HT.
+  - intros c d' Hin. destruct (mapd_In F U c d' Hin) as (d & HinU & ->). rewrite (Hmed c d HinU).
+    destruct (Hall c d HinU) as (_ & _ & _ & A4 & _). exact A4.
+  - rewrite mapd_length. exact Hn.
+  - rewrite own_remove_mapd, mapd_mapd. rewrite (mapd_ext_in _ F' U); [exact H|].
+    intros c d Hin. rewrite (adj_compat _ _ _ _ (Hmed c d Hin)). destruct (Hall c d Hin) as (_ & _ & _ & _ & A5). exact A5.
+Qed.
+
+Lemma gnb_mapd F U n : (forall c d, In (c, d) U -> (med_of (F c d) == med_of d)%Q) -> gnb (canon (mapd F U)) n = gnb (canon U) n.
+Proof.
+  intros H. unfold gnb.
+  apply (get_n_best_rel Qle_bool Qle_bool (fun a a' : Q => (a' == a)%Q)); [intros a a' b b' Ha Hb; apply Qle_bool_Qeq; assumption|].
+  unfold canon, mapd. rewrite map_map. cbn [fst snd]. induction U as [|[c d] U IH]; [constructor|].
+  cbn [map fst snd]. constructor; [split; [reflexivity|apply (H c d); left; reflexivity]|]. apply IH. intros c' d' Hin. apply H. right. exact Hin.
+Qed.
+
+Lemma Inv_nonneg U T : Inv U T -> U <> [] -> (0 <= T)%Z.
+Proof.
+  intros [_ H] Hne. destruct U as [|[c d] U]; [congruence|]. inversion H as [|? ? [[_ Hnn] Ht] _]; subst. cbn [snd] in *.
+  rewrite cs_total_sumf. apply sumf_nonneg, Hnn.
+Qed.
+
+(* the answer of one step on a candidate-wise image with the same medians (up to ==) *)
+Lemma mx_mapd F U T T' : Inv U T -> Inv (mapd F U) T' -> ((0 < T)%Z <-> (0 < T')%Z) -> (mx (mapd F U) <=? 0)%Z = (mx U <=? 0)%Z.
+Proof.
+  intros HI HI' Hiff. destruct U as [|x U]; [reflexivity|].
+  pose proof (Inv_nonneg _ _ HI ltac:(discriminate)) as H0. pose proof (Inv_nonneg _ _ HI' ltac:(discriminate)) as H0'.
+  rewrite (mx_Inv _ _ HI H0), (mx_Inv _ _ HI' H0'). cbn [mapd map].
+  destruct (T <=? 0)%Z eqn:E1, (T' <=? 0)%Z eqn:E2; try reflexivity.
+  - apply Z.leb_le in E1. apply Z.leb_gt in E2. lia.
+  - apply Z.leb_gt in E1. apply Z.leb_le in E2. lia.
+Qed.
+
+Lemma aggregate_canon U T medians : Inv U T -> (mx U <=? 0)%Z = false -> aggregate FMedianLow U = inl medians ->
+  medians = canon U /\ (0 < T)%Z.
+Proof.
+  intros HI Hm Ha. destruct U as [|x U]; [discriminate|].
+  pose proof (Inv_nonneg _ _ HI ltac:(discriminate)) as H0. destruct (proj1 (mx_pos _ _ HI H0) Hm) as [_ HT].
+  rewrite (aggregate_Inv _ _ HI HT) in Ha. injection Ha as <-. auto.
+Qed.
+
+Section Follow.
+  Variable k : Z.
+  Hypothesis Hk : (0 < k)%Z.
+
+  Definition Fsc : C -> cscores -> cscores := fun _ d => scalec k d.
+  Definition Fp1 (hs : C -> Q) : C -> cscores -> cscores := fun c d => adj (scalec k d) (hs c) (k - 1).
+  Definition p1_ok (hs : C -> Q) (h0 : Q) (U : state) (T : Z) : Prop :=
+    forall c d, In (c, d) U ->
+      In (hs c) (map fst d) /\ (hs c == h0)%Q /\ (2 * below d (hs c) <= T - 1)%Z /\ (T - 1 <= 2 * atmost d (hs c))%Z.
+
+  Lemma crel_scalec d : crel k d (scalec k d).
+  Proof.
+    induction d as [|[s n] d IH]; [constructor|]. cbn [scalec map fst snd]. constructor; [|exact IH].
+    split; [reflexivity|]. cbn [snd]. unfold zsc. reflexivity.
+  Qed.
+
+  Lemma med_of_scalec d : med_of (scalec k d) = med_of d.
+  Proof. unfold med_of. rewrite (aggregate_one_eq k Hk FMedianLow d (scalec k d) ltac:(discriminate) (crel_scalec d)). reflexivity. Qed.
+
+  (* what holds of one candidate of a balanced state *)
+  Lemma cand_facts U T c d : Inv U T -> (0 < T)%Z -> In (c, d) U ->
+    good d /\ cs_total d = T /\ In (med_of d) (map fst d) /\ is_med d (med_of d).
+  Proof.
+    intros [_ H] HT Hin. rewrite Forall_forall in H. destruct (H _ Hin) as [Hg Ht]. cbn [snd] in *.
+    destruct (med_of_spec d T Hg Ht HT) as (_ & A & B). auto.
+  Qed.
+
+  Lemma stairZ_top d m h : stairZ k d m h (k - 1) k = adj (scalec k d) h (k - 1).
+  Proof.
+    unfold stairZ, stairB. rewrite scalec_adj, adj_adj_comm, adj_adj_same.
+    replace (k * - (1) + k)%Z with 0%Z by lia. rewrite adj_zero. reflexivity.
+  Qed.
+
+  Lemma stairZ_zero d m h : stairZ k d m h 0 0 = scalec k (adj d m (- (1))).
+  Proof. unfold stairZ, stairB. rewrite !adj_zero. reflexivity. Qed.
+
+  Lemma stair_total d T m h x y : good d -> cs_total d = T -> In m (map fst d) -> In h (map fst d) ->
+    cs_total (stairZ k d m h x y) = (k * (T - 1) + x + y)%Z.
+  Proof.
+    intros [Hkd _] Ht Hm Hh. unfold stairZ, stairB.
+    assert (K0 : keys_nd (map fst (scalec k (adj d m (- (1)))))) by (rewrite scalec_keys, adj_keys; exact Hkd).
+    rewrite total_adj, total_adj, total_scalec, total_adj, Ht; try lia; try assumption.
+    - apply has_In, Hm.
+    - apply has_In. rewrite scalec_keys, adj_keys. exact Hh.
+    - rewrite adj_keys. exact K0.
+    - apply has_In. rewrite adj_keys, scalec_keys, adj_keys. exact Hm.
+  Qed.
+
+  Lemma SC_Inv U T : Inv U T -> Inv (mapd Fsc U) (k * T).
+  Proof.
+    intros [Hnd H]. apply mapd_Inv; [exact Hnd|]. intros c d Hin. rewrite Forall_forall in H. destruct (H _ Hin) as [Hg Ht]. cbn [snd] in *.
+    unfold Fsc. split; [apply good_scalec; [lia|exact Hg]|rewrite total_scalec, Ht; reflexivity].
+  Qed.
+
+  Lemma P1_cand hs h0 U T c d : Inv U T -> (0 < T)%Z -> Z.odd T = true -> p1_ok hs h0 U T -> In (c, d) U ->
+    good (Fp1 hs c d) /\ cs_total (Fp1 hs c d) = (k * T + k - 1)%Z /\ is_med (Fp1 hs c d) (med_of d).
+  Proof.
+    intros HI HT Ho Hok Hin. destruct (cand_facts U T c d HI HT Hin) as (Hg & Ht & Hm & Hmed).
+    destruct (Hok c d Hin) as (Hh & _ & Hh1 & Hh2). unfold Fp1. split; [|split].
+    - apply good_adj_add; [apply good_scalec; [lia|exact Hg]|rewrite scalec_keys; exact Hh|lia].
+    - rewrite (total_sa k d T Hg Ht _ _ Hh). lia.
+    - rewrite <- (stairZ_top d (med_of d) (hs c)). replace k with (k - 1 + 1)%Z at 3 by lia.
+      apply (stair_med_m k Hk d T (med_of d) Hg Ht Hm Hmed (hs c) Hh Ho Hh1). lia.
+  Qed.
+
+  Lemma P1_Inv hs h0 U T : Inv U T -> (0 < T)%Z -> Z.odd T = true -> p1_ok hs h0 U T -> Inv (mapd (Fp1 hs) U) (k * T + k - 1).
+  Proof.
+    intros HI HT Ho Hok. apply mapd_Inv; [exact (proj1 HI)|]. intros c d Hin.
+    destruct (P1_cand hs h0 U T c d HI HT Ho Hok Hin) as (A & B & _). auto.
+  Qed.
+
+  Lemma p1_ok_filter hs h0 U T (f : C * cscores -> bool) : p1_ok hs h0 U T -> p1_ok hs h0 (filter f U) T.
+  Proof. intros H c d Hin. apply filter_In in Hin. apply H. tauto. Qed.
+
+  (* the simple rules are followed on any candidate-wise image with ==-equal medians *)
+  Section Simple.
+    Variables (F : C -> cscores -> cscores) (U : state) (T T' : Z).
+    Hypothesis HI : Inv U T.
+    Hypothesis HI' : Inv (mapd F U) T'.
+    Hypothesis Hiff : (0 < T)%Z <-> (0 < T')%Z.
+    Hypothesis Hmed : (0 < T)%Z -> forall c d, In (c, d) U -> (med_of (F c d) == med_of d)%Q.
+
+    Lemma simple_mx : (mx (mapd F U) <=? 0)%Z = (mx U <=? 0)%Z.
+    Proof. apply (mx_mapd F U T T' HI HI' Hiff). Qed.
+
+    Lemma simple_agg : (mx U <=? 0)%Z = false ->
+      (0 < T)%Z /\ aggregate FMedianLow U = inl (canon U) /\ aggregate FMedianLow (mapd F U) = inl (canon (mapd F U)) /\
+      forall n, gnb (canon (mapd F U)) n = gnb (canon U) n.
+    Proof.
+      intros Hm. destruct U as [|x U'] eqn:EU; [discriminate|]. rewrite <- EU in *.
+      assert (Hne : U <> []) by (rewrite EU; discriminate).
+      destruct (proj1 (mx_pos U T HI (Inv_nonneg U T HI Hne)) Hm) as [_ HT].
+      split; [exact HT|]. split; [apply (aggregate_Inv U T HI HT)|]. split; [apply (aggregate_Inv _ T' HI'); tauto|].
+      intros n. apply gnb_mapd. exact (Hmed HT).
+    Qed.
+  End Simple.
+
+  Lemma rest_of_mapd F U best : rest_of (mapd F U) best = mapd F (rest_of U best).
+  Proof. unfold rest_of. apply (mapd_filter F (fun c => negb (cmem c (wc_of best)))). Qed.
+
+  Lemma mj_level_mapd F U tied : mj_level (mapd F U) tied = mapd F (mj_level U tied).
+  Proof. unfold mj_level. apply (mapd_filter F (fun c => cmem c tied)). Qed.
+
+  (* the first removal on the image of a tied state *)
+  Lemma tie_image F U T T' n r :
+    Inv U T -> Inv (mapd F U) T' -> ((0 < T)%Z <-> (0 < T')%Z) ->
+    (forall c d, In (c, d) U -> (med_of (F c d) == med_of d)%Q) ->
+    (mx U <=? 0)%Z = false ->
+    Nat.eqb (count_tie (gnb (canon U) n)) 0 = false -> Nat.ltb 0 (untied_of (gnb (canon U) n)) = false ->
+    MJ (mapd (fun c d => adj (F c d) (med_of d) (- (1))) (mj_level U (tied_of (gnb (canon U) n)))) n r ->
+    MJ (mapd F U) n r.
+  Proof.
+    intros HI HI' Hiff Hmed Hm Hc Hu H.
+    destruct (simple_agg F U T T' HI HI' Hiff (fun _ => Hmed) Hm) as (HT & Ha & Ha' & Hg).
+    assert (Hm' : (mx (mapd F U) <=? 0)%Z = false) by (rewrite (simple_mx F U T T' HI HI' Hiff); exact Hm).
+    apply (MJ_tie (mapd F U) n (canon (mapd F U)) r Hm' Ha'); rewrite ?Hg; try assumption.
+    pose proof (mj_remove_own (mapd F U) T' (fun cd : C * cscores => cmem (fst cd) (tied_of (gnb (canon U) n))) 1 HI' ltac:(tauto)) as E.
+    change (mj_remove (mj_level (mapd F U) (tied_of (gnb (canon U) n))) (canon (mapd F U)) 1
+            = own_remove (mj_level (mapd F U) (tied_of (gnb (canon U) n))) 1) in E.
+    rewrite E, mj_level_mapd, own_remove_mapd, mapd_mapd.
+    rewrite (mapd_ext_in _ (fun c d => adj (F c d) (med_of d) (- (1)))); [exact H|].
+    intros c d Hin. unfold mj_level in Hin. apply filter_In in Hin. apply adj_compat. apply Hmed. tauto.
+  Qed.
+End Follow.
